@@ -7,11 +7,16 @@
   What is proved here, for all inputs:  the value-level decoders invert the standard encodings, a directory
   entry decodes to what was encoded (see also C07), and the pending-tag buffer keeps its invariant under every
   sequence of operations (sorted by offset, at most 84 slots, nothing dropped when offsets are distinct).
-  `C03_decode_encode` (streaming decode of every forward layout = the encoded record) is stated below as the
-  target; its proof (refinement of the priority-queue reader to a random-access reader, DESIGN section 7) is not
-  finished and the full statement is therefore decided by the search, not by a theorem: see `partial` in the evidence.
+  Since the third round also the refinement of the streaming reader to a random-access reader at the level of the
+  pending queue: `C03_forward_read_exact` (one forward read returns exactly F[off, off+size)) and
+  `C03_forward_layout_exact` (whenever the pending value tags are laid out forward without overlap, every read of the
+  work loop succeeds and returns exactly its tag's bytes; Lemmas/ExifExact, ExifOne, ExifForward).
+  What is still decided by the search only: that the queue which readIfdHeader builds from a directory *is* that layout's
+  queue for nested directories (IFD pointers, sub-IFDs, maker notes), i.e. the whole-file statement
+  decode(encode(m, L)) = m: see `partial` in the evidence.
 -/
 import Imeta.Lemmas.Exif
+import Imeta.Lemmas.ExifForward
 namespace Imeta.Exif
 open Imeta
 
@@ -133,5 +138,44 @@ theorem C03_add_keeps_all (r : R) (t : Tag) (hs : Sorted r.tags) (hpo : r.po ≤
           exact key _ (Nat.le_refl _) (by simp)
         exact this hi
       rw [if_pos (by omega)]
+
+/-! ## the streaming reader reads what a random-access reader would -/
+
+/-- **One forward read is exact**: with the stream coherent with the file F (`Coh`: the unread bytes are F from the
+reader's position on), a tag whose value lies at or after the position, inside F and the Exif length, within the
+reader's window (4096 bytes behind a bufio.Reader, 1024 without) is read successfully, the bytes are exactly
+F[t.off, t.off+t.size), and the reader stands right after them. -/
+theorem C03_forward_read_exact {F : Bytes} {r : R} (h : Coh F r) (t : Tag) (hfw : r.po ≤ t.off) (hF : t.off + t.size ≤ F.length)
+    (hx : t.off + t.size ≤ r.exifLength) (hlim : t.size ≤ readLimit r) :
+    (readTagValue r t).err = none ∧ (readTagValue r t).buf = slice F t ∧ (readTagValue r t).r.po = t.off + t.size :=
+  let h' := readTagValue_exact h t hfw hF hx hlim
+  ⟨h'.1, h'.2.1, h'.2.2.1⟩
+
+/-- **Forward layouts are read exactly**: if the pending tags from the current one on are value tags laid out one after
+the other without overlap (in queue order), inside the file, the Exif length and the reader's window, and none lies
+before the reader's position, then the work loop ends with every read it made successful and equal to the bytes its tag
+points at (`Exact`: the ghost record of reads holds `(t, some F[t.off, t.off+t.size))` only), whatever the field parsers
+do with them; the stream stays coherent with the file. -/
+theorem C03_forward_layout_exact {F : Bytes} (tb : Tables) (fuel : Nat) (r r' : R) (hc : Coh F r) (he : Exact F r)
+    (hlay : (r.tags.drop r.pos).Pairwise (fun a b => a.off + a.size ≤ b.off))
+    (hall : ∀ t ∈ r.tags.drop r.pos, t.typ ≠ tIfd ∧ ¬(t.id = 0x014a ∧ t.ifd = ifd0) ∧ t.off + t.size ≤ F.length ∧
+      t.off + t.size ≤ r.exifLength ∧ t.size ≤ readLimit r)
+    (hpo : ∀ t ∈ r.tags.drop r.pos, r.po ≤ t.off)
+    (h : ifdLoop tb fuel r = .ok r') : Coh F r' ∧ Exact F r' :=
+  ifdLoop_forward tb fuel r r' hc he (Chain.of_pairwise _ _ hlay hall hpo) h
+
+/-- non-vacuity: a 40-byte file, a fresh reader at position 10 with two pending ASCII tags at 12 (4+... bytes) and 20 -/
+example : let F : Bytes := List.replicate 40 65
+    let t1 : Tag := { off := 12, count := 6, id := 0x010f, typ := tASCII, ifd := ifd0, idx := 0, order := .little }
+    let t2 : Tag := { off := 20, count := 8, id := 0x0110, typ := tASCII, ifd := ifd0, idx := 0, order := .little }
+    let r : R := { rest := F.drop 10, po := 10, exifLength := 4096, buffered := true, tags := [t1, t2] }
+    Coh F r ∧ Exact F r ∧ (r.tags.drop r.pos).Pairwise (fun a b => a.off + a.size ≤ b.off) ∧
+    (∀ t ∈ r.tags.drop r.pos, r.po ≤ t.off ∧ t.off + t.size ≤ F.length ∧ t.size ≤ readLimit r) := by
+  refine ⟨⟨rfl, by decide, by decide⟩, ?_, ?_, ?_⟩
+  · intro e he; cases he
+  · decide
+  · intro t ht
+    simp only [List.drop_zero, List.mem_cons, List.not_mem_nil, or_false] at ht
+    rcases ht with rfl | rfl <;> decide
 
 end Imeta.Exif
